@@ -80,6 +80,26 @@ Theorem C01_block_fee_exact : forall fees,
 Proof. exact block_fee_exact. Qed.
 Print Assumptions C01_block_fee_exact.
 
+(* From inputs to references: the node feeds the fee check one reference per
+   input (GetTxReference), so the bound above is about the outputs a transaction
+   really spends only because CheckTransactionInput rejects a repeated outpoint.
+   With that step in the model: an accepted transaction's exact output total is
+   at most the exact total over the DISTINCT outpoints it names, for every
+   unspent-output view [utxo]. *)
+Theorem C01_accept_tx_no_inflation : forall k pr utxo ins outs,
+  0 <= p_minfee pr ->
+  accept_tx k pr utxo ins outs = true ->
+  exact_sum (map o_val outs) <= spent_total utxo ins.
+Proof. exact accept_tx_no_inflation. Qed.
+Print Assumptions C01_accept_tx_no_inflation.
+
+(* ... and a transaction naming one outpoint twice - at any two positions, with
+   equal or different Sequence fields - does not pass the input check. *)
+Theorem C01_repeated_outpoint_rejected : forall pre mid post a b,
+  i_op a = i_op b -> check_inputs (pre ++ a :: mid ++ b :: post) = false.
+Proof. exact repeated_outpoint_rejected. Qed.
+Print Assumptions C01_repeated_outpoint_rejected.
+
 (* Every transaction type that reaches CheckTransactionFee - whatever its own
    CheckTransactionOutput override does (ExchangeVotes, SideChainPow with
    inputs, the proposal and withdrawal types, any future override) - is bounded
@@ -172,4 +192,17 @@ Example C01_early_end_nonvacuous :
   sidepow_new_outputs_ok [O 0 true 33 false 0] = true /\
   sidepow_new_outputs_ok [O 1 true 33 false 0] = false /\
   sidepow_new_outputs_ok [] = false.
+Proof. vm_compute. repeat split; reflexivity. Qed.
+
+(* non-vacuity of the input step: two distinct outpoints worth 60 and 40 fund
+   outputs 99 (fee 1 with min fee 1); naming the first outpoint twice with
+   different Sequence is rejected although the references would sum to 120 *)
+Example C01_inputs_nonvacuous :
+  let pr := P 2000000 88812 1405000 true 1 in
+  let utxo := fun op => if op =? 7 then 60 else 40 in
+  accept_tx KStd pr utxo [I 7 0; I 8 0] [O 99 true 33 false 0] = true /\
+  spent_total utxo [I 7 0; I 8 0] = 100 /\
+  accept_tx KStd pr utxo [I 7 0; I 7 1] [O 119 true 33 false 0] = false /\
+  exact_sum (references utxo [I 7 0; I 7 1]) = 120 /\
+  spent_total utxo [I 7 0; I 7 1] = 60.
 Proof. vm_compute. repeat split; reflexivity. Qed.
